@@ -72,6 +72,11 @@ func (f *File) add(msg reflect.Value) {
 	x := msg.Interface()
 	switch tmp := x.(type) {
 	case FileIdMsg:
+		if f.msgAdder != nil {
+			// The file type is fixed by the first file_id message:
+			// it selected the container. Ignore later ones.
+			return
+		}
 		f.FileId = tmp
 	case FileCreatorMsg:
 		f.FileCreator = &tmp
